@@ -41,9 +41,9 @@ ASSUMPTIONS = [
     "ancestors of ignored leftovers, and root .bzrignore / .bzrignore-upload (skipped by full upload by documented intent) are don't-care; "
     "a --full upload over an existing remote is not required to delete stale paths that were there before (they become don't-care too); "
     "an exception whose uploader operation touches such a path is counted, not judged",
-    "failure keys: a failure is first explained by what the delta did to the failing path (closed list of mechanism families, see "
-    "fixes/C43-*.md), then by a known-bad shape elsewhere in the same delta ('other-failure-in-delta-with:...'), else it keeps the detailed "
-    "key <delta class>:<symptom> / raised:<exception>@<uploader operation>:<delta class>; plain file<->file swaps never fall into a family",
+    "failure keys: a failure is explained by what the delta does to the failing path itself and to its ancestor directories (closed "
+    "list of mechanisms, see fixes/C43-*.md; _explain/_mechanism), never by what else the delta contains; otherwise it keeps the detailed "
+    "key <delta class>:<symptom> / raised:<exception>@<uploader operation>:<delta class>; plain file<->file swaps never get a mechanism key",
     "expected entries are read through the public Tree API of the RevisionTree; exec bit = owner-x of the remote file",
     "after a failed or refused step the plan continues on a fresh remote (full upload), so one finding does not hide later steps",
 ]
